@@ -489,7 +489,7 @@ func genProps(rt *rapid.T, depth, spine int, headers map[string]bool, allowNulla
 		nd.Name = genPropName(rt, names)
 		nd.Required = rapid.IntRange(0, 9).Draw(rt, "required") < 4
 		kinds := []string{"string", "string", "integer", "integer", "boolean", "number"}
-		if depth < 3 {
+		if depth < maxDepth {
 			kinds = append(kinds, "object", "object")
 		}
 		kind := rapid.SampledFrom(kinds).Draw(rt, "kind")
@@ -542,8 +542,11 @@ func genProps(rt *rapid.T, depth, spine int, headers map[string]bool, allowNulla
 	return out
 }
 
+const maxDepth = 6
+
 func genTool(rt *rapid.T, allowNullable bool) []Node {
-	spine := rapid.SampledFrom([]int{1, 2, 2, 3, 3}).Draw(rt, "spine")
+	// depths up to 6: "at any depth" in the property; deeper paths exercise slice growth in path building
+	spine := rapid.SampledFrom([]int{1, 2, 2, 3, 3, 4, 4, 5, 6}).Draw(rt, "spine")
 	return genProps(rt, 1, spine, map[string]bool{}, allowNullable)
 }
 
